@@ -62,7 +62,7 @@ EXT = {
 
 IDENTS = ["compute", "Shape", "GLOBAL", "make_shape", "area", "describe", "size", "sides", "total", "scaled", "side",
           "result", "text", "prefix", "helper", "Tool", "tool", "ext_func", "extmod", "wrap", "inner", "double", "twice",
-          "value", "core", "sibling", "a", "b", "s", "r", "undefined_thing", "extpkg", "pkg", "use", "x", "n", "self"]
+          "value", "core", "sibling", "a", "b", "s", "r", "undefined_thing", "extpkg", "pkg", "use", "x", "n", "self", "sys", "os", "vendored", "codec"]
 NEWNAMES = ["renamed", "Other", "new_name", "zed", "class", "1bad", "has space", "", "compute", "área"]
 FRAGMENTS = ["a + b", "total * GLOBAL", "side * side", "prefix + str(self.area())", "self.area()", "shape.area()",
              "total = a + b\n    scaled = total * GLOBAL", "side = self.size\n        result = side * side", "r * 2",
